@@ -615,6 +615,10 @@ pub fn check_c04(ix: &Ix<'_>, v: &mut Vec<Violation>) {
     // Responses without an identifier (PINGRESP, AUTH) can only be matched by position. The protocol
     // service sees control packets one at a time in arrival order, so the j-th PINGREQ corresponds to
     // the j-th PINGREQ handler invocation; a request whose handler failed owes no response.
+    // (when one of several handlers of such a kind failed, position is no evidence either: the library's
+    // control buffer may start a later request before an earlier buffered one, so "the j-th invocation failed"
+    // does not say which request got no response - those responses are counted, not ordered)
+    let mut ambiguous_kinds: Vec<&'static str> = Vec::new();
     for (kind, brief) in [("PINGRESP", "PINGREQ"), ("AUTH", "AUTH")] {
         let outcomes: Vec<Option<Outcome>> = ix
             .gates
@@ -623,6 +627,9 @@ pub fn check_c04(ix: &Ix<'_>, v: &mut Vec<Violation>) {
             .filter(|g| matches!(&g.desc, GateDesc::Proto { brief: b, .. } if b.starts_with(brief)))
             .map(|g| g.exit.as_ref().map(|(_, o)| o.clone()))
             .collect();
+        if outcomes.len() > 1 && outcomes.iter().any(|o| matches!(o, Some(Outcome::Err | Outcome::Disconnect(_)))) {
+            ambiguous_kinds.push(kind);
+        }
         let mut j = 0usize;
         for r in reqs.iter_mut().filter(|r| r.kind == kind) {
             if let Some(Some(o)) = outcomes.get(j)
@@ -654,6 +661,12 @@ pub fn check_c04(ix: &Ix<'_>, v: &mut Vec<Violation>) {
             continue;
         }
         let pid = e.pkt.pid();
+        if ambiguous_kinds.contains(&name) {
+            if let Some(r) = reqs.iter_mut().find(|r| r.kind == name && r.answered == 0) {
+                r.answered += 1;
+            }
+            continue;
+        }
         if name == "PUBCOMP" && pid.is_some_and(|p| ambiguous_pubcomp.contains(&p)) {
             if let Some(r) = reqs.iter_mut().find(|r| r.kind == "PUBCOMP" && r.pid == pid && r.answered == 0) {
                 r.answered += 1;
